@@ -89,8 +89,14 @@ where
         loop {
             let yielded_count = self.yielded_counter.current();
             match begin_idx.cmp(&yielded_count) {
-                // begin_idx==yielded_count => it is our job to provide the items
-                Ordering::Equal => return Some(begin_idx),
+                // begin_idx==yielded_count => it is our job to provide the items,
+                // unless the iteration has already been completed or skipped to end
+                Ordering::Equal => {
+                    return match self.completed.load(atomic::Ordering::Acquire) {
+                        true => None,
+                        false => Some(begin_idx),
+                    }
+                }
 
                 Ordering::Less => return None,
 
@@ -110,6 +116,11 @@ where
             match item_idx.cmp(&yielded_count) {
                 // item_idx==yielded_count => it is our job to provide the item
                 Ordering::Equal => {
+                    // the iteration has already been completed or skipped to end
+                    if self.completed.load(atomic::Ordering::Acquire) {
+                        return None;
+                    }
+
                     // SAFETY: no other thread has the valid condition to iterate, they are waiting
                     let next = unsafe { self.mut_iter() }.next();
                     match next.is_some() {
